@@ -68,12 +68,17 @@ Theorem c15_weyl_symmetry : forall a b c,
   kappaR (kak_coeffsR (a + PI / 2) b c) = kappaR (kak_coeffsR a b c).
 Proof. exact kappa_weyl_symmetry. Qed.
 
-(* the coefficient list of the KAK path depends on what the Weyl decomposition returned only
-   through (a, b, c): local factors K1l, K1r, K2l, K2r and the global phase never enter.
-   (True BY CONSTRUCTION of the model, whose KAK coefficient function has no such argument; the tie to
-   the source is the extracted statement `u = _u_from_thetavec([d.a, d.b, d.c])` in c15_facts_source and
-   the conj/twin streams.  The content about local equivalence is c15_weyl_symmetry and c15_kak_doc_angles.) *)
-Theorem c15_local_invariance : forall (L : Type) (d d' : weyl L),
+(* kappa of the KAK path is constant on weyl_equiv classes of coordinate triples (Model/Kappa.v: closure of the
+   Weyl-group moves and the mirror move): the coordinate-level form of "locally equivalent gates have equal kappa" *)
+Theorem c15_weyl_equiv_kappa : forall t t', weyl_equiv t t' -> kappaR (kak3 t) = kappaR (kak3 t').
+Proof. exact kappa_weyl_equiv. Qed.
+
+Example c15_ex_weyl_equiv : weyl_equiv (PI / 8, 0, 0) (0, PI / 8 + PI / 2, 0).
+Proof. eapply we_trans; [apply we_shift_a|apply we_swap_ab]. Qed.
+
+(* NOT registered: the model's KAK coefficient function has no argument for the local factors / the phase, so this
+   holds by construction; the tie to the source is the extracted call text in c15_facts_source and the conj/twin streams *)
+Remark c15_local_invariance_by_construction : forall (L : Type) (d d' : weyl L),
   w_a d = w_a d' -> w_b d = w_b d' -> w_c d = w_c d' ->
   kak_basis_coeffsR d = kak_basis_coeffsR d'.
 Proof. exact @kak_local_invariance. Qed.
@@ -95,47 +100,68 @@ Proof.
         (conj kappa_kak_doc_cx (conj kappa_kak_doc_cs (conj kappa_kak_doc_iswap kappa_kak_doc_swap)))))).
 Qed.
 
-(* ---- the named gates on the KAK path ARE local conjugates of the canonical interaction ------------
-   (discharges, for rzx / xx_plus_yy / xx_minus_yy, the hypothesis "these are the gate's Weyl coordinates":
-    the 4x4 matrix of the gate [Model/KappaGates.v, compared with Gate.to_matrix() by the harness] equals
-    K1 * N(a,b,c) * K2 with K1, K2 Kronecker products of 2x2 matrices and N = sum_k u_k s_k(x)s_k built from the
-    code's own u = _u_from_thetavec([a,b,c]); and kappa of the KAK path at (a,b,c) is the documented closed form.
-    Hm = sqrt2 * Hadamard (Hm*Hm = 2 I);  Dph b = diag(1, e^{ib}), inverse Dph (-b).) *)
+(* ---- the named gates on the KAK path ------------------------------------------------------------------
+   (1) About the gate MATRIX [Model/KappaGates.v tables, compared with Gate.to_matrix() by the harness]: it equals
+       K1 * N(a,b,c) * K2 with K1 = A1(x)B1, K2 = A2(x)B2 and all four 2x2 factors UNITARY (local_conjugate_of_kak),
+       N = sum_k u_k s_k(x)s_k built from the code's own u = _u_from_thetavec([a,b,c]); and kappa at (a,b,c) is the
+       documented closed form.
+   (2) About the MODEL'S OUTPUT for the gate: with the oracle premise as an explicit hypothesis — the triple that
+       TwoQubitWeylDecomposition returned is weyl_equiv to the proved one (this is where "Qiskit returns an exact
+       KAK decomposition" and "KAK coordinates are unique up to the Weyl group" enter) — the kappa of the basis the
+       KAK path builds is the documented closed form. *)
 Theorem c15_rzx_is_kak : forall theta,
-  (forall i j, (i < 4)%nat -> (j < 4)%nat ->
-     rzx_mat theta i j =
-     mscale (/ 2) (mmul (mmul (kron sI Hm) (kak_mat (- (theta / 2)) 0 0)) (kron sI Hm)) i j) /\
+  local_conjugate_of_kak (rzx_mat theta) (- (theta / 2)) 0 0 /\
   kappaR (kak_coeffsR (- (theta / 2)) 0 0) = 1 + 2 * Rabs (sin theta).
-Proof. intros theta. split; [intros i j; apply rzx_kak|apply kappa_rzx_coords]. Qed.
+Proof. intros theta. split; [apply rzx_local_conjugate|apply kappa_rzx_coords]. Qed.
 
 Theorem c15_xxpyy_is_kak : forall theta beta,
-  (forall i j, (i < 4)%nat -> (j < 4)%nat ->
-     xxpyy_mat theta beta i j =
-     mmul (mmul (kron (Dph beta) sI) (kak_mat (- (theta / 4)) (- (theta / 4)) 0)) (kron (Dph (- beta)) sI) i j) /\
+  local_conjugate_of_kak (xxpyy_mat theta beta) (- (theta / 4)) (- (theta / 4)) 0 /\
   kappaR (kak_coeffsR (- (theta / 4)) (- (theta / 4)) 0)
     = 1 + 4 * Rabs (sin (theta / 2)) + 2 * (sin (theta / 2) * sin (theta / 2)).
-Proof. intros theta beta. split; [intros i j; apply xxpyy_kak|apply kappa_xxpyy_coords]. Qed.
+Proof. intros theta beta. split; [apply xxpyy_local_conjugate|apply kappa_xxpyy_coords]. Qed.
 
 Theorem c15_xxmyy_is_kak : forall theta beta,
-  (forall i j, (i < 4)%nat -> (j < 4)%nat ->
-     xxmyy_mat theta beta i j =
-     mmul (mmul (kron (Dph beta) sI) (kak_mat (- (theta / 4)) (theta / 4) 0)) (kron (Dph (- beta)) sI) i j) /\
+  local_conjugate_of_kak (xxmyy_mat theta beta) (- (theta / 4)) (theta / 4) 0 /\
   kappaR (kak_coeffsR (- (theta / 4)) (theta / 4) 0)
     = 1 + 4 * Rabs (sin (theta / 2)) + 2 * (sin (theta / 2) * sin (theta / 2)).
-Proof. intros theta beta. split; [intros i j; apply xxmyy_kak|apply kappa_xxmyy_coords]. Qed.
+Proof. intros theta beta. split; [apply xxmyy_local_conjugate|apply kappa_xxmyy_coords]. Qed.
 
-(* the local factors used above are invertible 2x2 matrices: Hm*Hm = 2 I, Dph b * Dph (-b) = I *)
-Theorem c15_local_factors : forall beta i j, (i < 2)%nat -> (j < 2)%nat ->
-  sum4 (fun k => Cmul (Hm i k) (Hm k j)) = Cscale 2 (sI i j) /\
-  Cadd (Cmul (Dph beta i 0%nat) (Dph (- beta) 0%nat j)) (Cmul (Dph beta i 1%nat) (Dph (- beta) 1%nat j)) = sI i j.
-Proof. intros beta i j Hi Hj. split; [now apply Hm_sq|now apply Dph_inv]. Qed.
+Theorem c15_rzx_oracle : forall (L : Type) (d : weyl L) theta,
+  weyl_equiv (weyl_coords d) (- (theta / 2), 0, 0) ->
+  kappaR (kak_basis_coeffsR d) = 1 + 2 * Rabs (sin theta).
+Proof. exact @rzx_oracle. Qed.
+
+Theorem c15_xxpyy_oracle : forall (L : Type) (d : weyl L) theta,
+  weyl_equiv (weyl_coords d) (- (theta / 4), - (theta / 4), 0) ->
+  kappaR (kak_basis_coeffsR d) = 1 + 4 * Rabs (sin (theta / 2)) + 2 * (sin (theta / 2) * sin (theta / 2)).
+Proof. exact @xxpyy_oracle. Qed.
+
+Theorem c15_xxmyy_oracle : forall (L : Type) (d : weyl L) theta,
+  weyl_equiv (weyl_coords d) (- (theta / 4), theta / 4, 0) ->
+  kappaR (kak_basis_coeffsR d) = 1 + 4 * Rabs (sin (theta / 2)) + 2 * (sin (theta / 2) * sin (theta / 2)).
+Proof. exact @xxmyy_oracle. Qed.
+
+(* the oracle premise is satisfiable: what Qiskit returns for RZXGate(1), namely (1/2, 0, 0) *)
+Example c15_ex_oracle_premise :
+  weyl_equiv (weyl_coords {| w_a := 1 / 2; w_b := 0; w_c := 0; w_K1l := tt; w_K1r := tt; w_K2l := tt; w_K2r := tt; w_phase := 0 |})
+             (- (1 / 2), 0, 0).
+Proof. apply we_mirror_a. Qed.
+
+(* the three KAK rows of the documented table: the documented coordinates (|p theta|, |q theta|, 0) used by
+   c15_doc_table_sound are weyl_equiv to the coordinates proved for the gate matrices above *)
+Theorem c15_doc_kak_rows : forall theta,
+  weyl_equiv (Rabs (Q2R (1 # 2) * theta), Rabs (Q2R (0 # 1) * theta), 0) (- (theta / 2), 0, 0) /\
+  weyl_equiv (Rabs (Q2R (1 # 4) * theta), Rabs (Q2R (1 # 4) * theta), 0) (- (theta / 4), - (theta / 4), 0) /\
+  weyl_equiv (Rabs (Q2R (1 # 4) * theta), Rabs (Q2R (1 # 4) * theta), 0) (- (theta / 4), theta / 4, 0).
+Proof. intros theta. exact (conj (doc_rzx_coords theta) (conj (doc_xxpyy_coords theta) (doc_xxmyy_coords theta))). Qed.
 
 (* ---- gamma >= 1 over Q, without any axiom (for the cut finder's cost table, C08) ------------------ *)
 
-(* every registered basis, at every rational point (c, s) of the unit circle standing for
-   (cos theta', sin theta'), has a coefficient list whose kappa is at least 1 *)
+(* every registered basis EXCEPT the four fixed-angle ones (cs, csdg, csx, csxdg: their point (cos pi/8, sin pi/8) is
+   irrational; they are covered over R by c15_cs_family / c15_ge_1), at every rational point (c, s) of the unit circle
+   standing for (cos theta', sin theta'), has a coefficient list whose kappa is at least 1 *)
 Theorem c15_gamma_table_ge1 : forall name c s,
-  In name registry_names -> (c * c + s * s == 1)%Q ->
+  In name registry_names -> fixed_angle name = false -> (c * c + s * s == 1)%Q ->
   exists l, coeffsQ name c s = Some l /\ (1 <= kappaQ l)%Q.
 Proof. exact gamma_table_ge1. Qed.
 
@@ -151,9 +177,12 @@ Theorem c15_gamma_table_consts :
   (exists l, coeffsQ "move" 0 0 = Some l /\ (kappaQ l == 4)%Q).
 Proof. exact gamma_table_consts. Qed.
 
-(* non-vacuity of the hypothesis c*c + s*s == 1 *)
-Example c15_ex_gamma : ((3#5) * (3#5) + (4#5) * (4#5) == 1)%Q.
-Proof. reflexivity. Qed.
+Theorem c15_gamma_table_excluded : filter fixed_angle registry_names = ["cs"; "csdg"; "csx"; "csxdg"].
+Proof. exact fixed_angle_names. Qed.
+
+(* non-vacuity of the hypotheses *)
+Example c15_ex_gamma : ((3#5) * (3#5) + (4#5) * (4#5) == 1)%Q /\ fixed_angle "crz" = false /\ In "crz" registry_names.
+Proof. split; [reflexivity|split; [reflexivity|vm_compute; tauto]]. Qed.
 
 (* ---- kappa >= 1 --------------------------------------------------------------------------- *)
 
@@ -174,7 +203,7 @@ Theorem c15_basis_invariants : forall (p : bphase) (ops : list (list Q)) (c : li
   get_coeffs p' = Some c /\
   get_kappa p' = Some (kappaQ c) /\ (kappaQ c == sumQ (map Qabs c))%Q /\
   get_probs p' = Some (probsQ c) /\
-  Forall2 Qeq (probsQ c) (map (fun x => (Qabs x / kappaQ c)%Q) c) /\
+  (~ (kappaQ c == 0)%Q -> Forall2 Qeq (probsQ c) (map (fun x => (Qabs x / kappaQ c)%Q) c)) /\
   get_overhead p' = Some (overheadQ c) /\ (overheadQ c == kappaQ c * kappaQ c)%Q /\
   (~ (kappaQ c == 0)%Q -> (sumQ (probsQ c) == 1)%Q) /\
   Forall (fun x => (0 <= x)%Q) (probsQ c).
@@ -182,7 +211,7 @@ Proof.
   intros p ops c H. cbv zeta.
   destruct (run_last p ops c H) as (A & B & C & D).
   repeat split; try assumption;
-    [apply kappaQ_sum|apply probsQ_spec|apply qmul_eq|exact (probsQ_sum c)|exact (probsQ_nonneg c)].
+    [apply kappaQ_sum|intros _; apply probsQ_spec|apply qmul_eq|exact (probsQ_sum c)|exact (probsQ_nonneg c)].
 Qed.
 
 (* a refused assignment (wrong length, ValueError) leaves the basis as it was *)
@@ -282,6 +311,18 @@ Example c15_ex_iswap :
   match option_map kappaQ (coeffsQ "iswap" 0 0) with Some k => (k == 7)%Q | None => False end.
 Proof. vm_compute. reflexivity. Qed.
 
+(* the constructor on two 2-qubit maps *)
+Example c15_ex_constructor :
+  new_basis [2; 2]%nat [(1#2); (-3#2)]%Q =
+  Ok (Ready 2 {| st_coeffs := [(1#2); (-3#2)]%Q; st_kappa := 2%Q; st_probs := [(1#4); (3#4)]%Q |}).
+Proof. vm_compute. reflexivity. Qed.
+
+(* the KAK path over Q: eigenvalue angles with (cos, sin) = (3/5, -+4/5), i.e. coordinates (t, 0, 0) with
+   (cos t, sin t) = (3/5, 4/5): kappa = 1 + 2*|2*(3/5)*(4/5)| = 73/25 *)
+Example c15_ex_kak_Q :
+  (kappaQ (nonlocal_coeffsQ (u_from_csQ [((3#5), (-4#5)); ((3#5), (-4#5)); ((3#5), (4#5)); ((3#5), (4#5))])) == 73 # 25)%Q.
+Proof. vm_compute. reflexivity. Qed.
+
 Example c15_ex_setter :
   match get_kappa (run_assignments (Unset 3) [[1; -1; 2]; [1; 2]; [(1#2); (-1#4); (1#4)]]%Q) with
   | Some k => (k == 1)%Q | None => False end.
@@ -300,12 +341,16 @@ Print Assumptions c15_weyl.
 Print Assumptions c15_weyl_t00.
 Print Assumptions c15_weyl_tt0.
 Print Assumptions c15_weyl_symmetry.
-Print Assumptions c15_local_invariance.
+Print Assumptions c15_weyl_equiv_kappa.
+Print Assumptions c15_rzx_oracle.
+Print Assumptions c15_xxpyy_oracle.
+Print Assumptions c15_xxmyy_oracle.
+Print Assumptions c15_doc_kak_rows.
+Print Assumptions c15_gamma_table_excluded.
 Print Assumptions c15_kak_doc_angles.
 Print Assumptions c15_rzx_is_kak.
 Print Assumptions c15_xxpyy_is_kak.
 Print Assumptions c15_xxmyy_is_kak.
-Print Assumptions c15_local_factors.
 Print Assumptions c15_gamma_table_ge1.
 Print Assumptions c15_gamma_table_rot.
 Print Assumptions c15_gamma_table_consts.
